@@ -86,6 +86,64 @@ def returned_locals(g):
     return out
 
 
+def fresh_id(P, res, rule="ISOLATION"):
+    """FRESH-ID (shared with C31): session ids come from a counter that only grows."""
+    ns = P.require_fn("nrepl::Connection::new_session")
+    # FRESH-ID: two live sessions must never share an id (the second insert would replace the first session's entry
+    # and both clients would talk to one Env). The id must come from a counter that only grows, not from the
+    # current number of sessions.
+    ins = [(bi, t) for bi, t in ns.calls() if (M.callee_name(t) or "").endswith("HashMap::<K, V, S, A>::insert")
+           and ns.root_of(t["args"][0], through_named=True)[0] == "place"
+           and ns.field_path(ns.root_of(t["args"][0], through_named=True)[1])[-1:] == ["sessions"]]
+    res.floor(rule, "sessions.insert in new_session", len(ins), 1)
+    for bi, t in ins:
+        k = ns.root_of(t["args"][1], through_named=True)
+        for _ in range(3):
+            if k[0] == "call" and (M.callee_name(k[2]) or "").endswith(("::clone", "::to_owned", "::to_string")) and k[2]["args"]:
+                k = ns.root_of(k[2]["args"][0], through_named=True)
+            else:
+                break
+        gen = P.funcs.get(M.callee_name(k[2]) or "") if k[0] == "call" else None
+        okid = False
+        why = "the key is not produced by a local id generator"
+        if gen is not None:
+            incs = [st for b in gen.blocks for st in b["stmts"] if st["s"] == "assign" and st["rv"]["k"] == "binop"
+                    and st["rv"]["op"] in ("AddWithOverflow", "Add") and (M.op_const(st["rv"]["b"]) or {}).get("v") == 1]
+            mut_counter = any(a.startswith("&mut u") for a in (k[2].get("argtys") or []))
+            uses_len = any((M.callee_name(tt) or "").endswith("::len") for _, tt in gen.calls())
+            okid = bool(incs) and mut_counter and not uses_len
+            why = "increments=%d, takes &mut counter=%s, derives from len()=%s" % (len(incs), mut_counter, uses_len)
+        if gen is None:
+            # inline form: `self.next_id += 1; let id = format!(.., self.next_id)` in new_session itself
+            kk = k
+            for _ in range(3):
+                if kk[0] == "call" and (M.callee_name(kk[2]) or "").endswith("must_use") and kk[2]["args"]:
+                    kk = ns.root_of(kk[2]["args"][0], through_named=True)
+            if kk[0] == "call" and (M.callee_name(kk[2]) or "").endswith("fmt::format"):
+                fb = kk[1]
+                stores = []
+                for bi2, b2 in enumerate(ns.blocks):
+                    for st in b2["stmts"]:
+                        if st["s"] == "assign" and st["place"]["p"] and ns.field_path(st["place"]) and st["rv"]["k"] == "use":
+                            q = M.op_place(st["rv"]["a"])
+                            d0 = ns.single_def(q["l"]) if q is not None else None
+                            if d0 and d0[1] != "term" and d0[2]["rv"]["k"] == "binop" and d0[2]["rv"]["op"] in ("AddWithOverflow", "Add") \
+                                    and (M.op_const(d0[2]["rv"]["b"]) or {}).get("v") == 1:
+                                src_ = M.op_place(d0[2]["rv"]["a"])
+                                if src_ is not None and ns.field_path(src_) == ns.field_path(st["place"]) and ns.dominates(bi2, fb):
+                                    stores.append(ns.field_path(st["place"])[-1])
+                uses_len = any((M.callee_name(tt) or "").endswith("::len") for b3, tt in ns.calls() if ns.dominates(b3, fb))
+                okid = bool(stores) and not uses_len
+                why = "inline: counter field incremented before formatting the id=%s, derives from len()=%s" % (stores, uses_len)
+        if okid:
+            res.ok(rule, "new_session: the session id comes from a monotonically incremented counter (FRESH-ID)")
+        else:
+            res.bad(rule, "nrepl::Connection::new_session # id-not-fresh",
+                    "the session id is not drawn from a counter that only grows (%s): after a session is closed a new "
+                    "session can reuse a live session's id and replace it" % why, ns.loc(t.get("fn_span")))
+
+
+
 def run(ctx, res):
     P = ctx.P
     f = P.require_fn("nrepl::eval_code_in_namespace")
@@ -274,59 +332,9 @@ def run(ctx, res):
         res.ok("ISOLATION", "new_session spawns a dedicated session_worker thread per session")
     else:
         res.bad("ISOLATION", "nrepl::Connection::new_session # spawn", "new_session does not spawn a session_worker per session", ns.loc())
-    # FRESH-ID: two live sessions must never share an id (the second insert would replace the first session's entry
-    # and both clients would talk to one Env). The id must come from a counter that only grows, not from the
-    # current number of sessions.
-    ins = [(bi, t) for bi, t in ns.calls() if (M.callee_name(t) or "").endswith("HashMap::<K, V, S, A>::insert")
-           and ns.root_of(t["args"][0], through_named=True)[0] == "place"
-           and ns.field_path(ns.root_of(t["args"][0], through_named=True)[1])[-1:] == ["sessions"]]
-    res.floor("ISOLATION", "sessions.insert in new_session", len(ins), 1)
-    for bi, t in ins:
-        k = ns.root_of(t["args"][1], through_named=True)
-        for _ in range(3):
-            if k[0] == "call" and (M.callee_name(k[2]) or "").endswith(("::clone", "::to_owned", "::to_string")) and k[2]["args"]:
-                k = ns.root_of(k[2]["args"][0], through_named=True)
-            else:
-                break
-        gen = P.funcs.get(M.callee_name(k[2]) or "") if k[0] == "call" else None
-        okid = False
-        why = "the key is not produced by a local id generator"
-        if gen is not None:
-            incs = [st for b in gen.blocks for st in b["stmts"] if st["s"] == "assign" and st["rv"]["k"] == "binop"
-                    and st["rv"]["op"] in ("AddWithOverflow", "Add") and (M.op_const(st["rv"]["b"]) or {}).get("v") == 1]
-            mut_counter = any(a.startswith("&mut u") for a in (k[2].get("argtys") or []))
-            uses_len = any((M.callee_name(tt) or "").endswith("::len") for _, tt in gen.calls())
-            okid = bool(incs) and mut_counter and not uses_len
-            why = "increments=%d, takes &mut counter=%s, derives from len()=%s" % (len(incs), mut_counter, uses_len)
-        if gen is None:
-            # inline form: `self.next_id += 1; let id = format!(.., self.next_id)` in new_session itself
-            kk = k
-            for _ in range(3):
-                if kk[0] == "call" and (M.callee_name(kk[2]) or "").endswith("must_use") and kk[2]["args"]:
-                    kk = ns.root_of(kk[2]["args"][0], through_named=True)
-            if kk[0] == "call" and (M.callee_name(kk[2]) or "").endswith("fmt::format"):
-                fb = kk[1]
-                stores = []
-                for bi2, b2 in enumerate(ns.blocks):
-                    for st in b2["stmts"]:
-                        if st["s"] == "assign" and st["place"]["p"] and ns.field_path(st["place"]) and st["rv"]["k"] == "use":
-                            q = M.op_place(st["rv"]["a"])
-                            d0 = ns.single_def(q["l"]) if q is not None else None
-                            if d0 and d0[1] != "term" and d0[2]["rv"]["k"] == "binop" and d0[2]["rv"]["op"] in ("AddWithOverflow", "Add") \
-                                    and (M.op_const(d0[2]["rv"]["b"]) or {}).get("v") == 1:
-                                src_ = M.op_place(d0[2]["rv"]["a"])
-                                if src_ is not None and ns.field_path(src_) == ns.field_path(st["place"]) and ns.dominates(bi2, fb):
-                                    stores.append(ns.field_path(st["place"])[-1])
-                uses_len = any((M.callee_name(tt) or "").endswith("::len") for b3, tt in ns.calls() if ns.dominates(b3, fb))
-                okid = bool(stores) and not uses_len
-                why = "inline: counter field incremented before formatting the id=%s, derives from len()=%s" % (stores, uses_len)
-        if okid:
-            res.ok("ISOLATION", "new_session: the session id comes from a monotonically incremented counter (FRESH-ID)")
-        else:
-            res.bad("ISOLATION", "nrepl::Connection::new_session # id-not-fresh",
-                    "the session id is not drawn from a counter that only grows (%s): after a session is closed a new "
-                    "session can reuse a live session's id and replace it" % why, ns.loc(t.get("fn_span")))
-
+    fresh_id(P, res)
+    from . import c31 as _c31
+    _c31.reader_never_blocks(P, res)
     # ---- FLUSHER -------------------------------------------------------------------
     fl = [p for p in P.funcs if p.startswith("nrepl::spawn_output_flusher::{closure")]
     for p in fl:
@@ -354,6 +362,31 @@ def run(ctx, res):
                 "take/drain calls=%d, clear calls=%d): output written between the read and the clear is lost" % (rng, len(takers), len(clears)),
                 fob.loc())
     res.ok("FLUSHER", "flusher closures (%d) and flush_output_buffer build no status message; flusher waits on the stop channel" % len(fl))
+    # ---- FRAME-EVERY-BYTE: the reader finds the end of a bencode value by trying to decode the bytes read so far after
+    # *every* byte. An attempt made only for some bytes (say, only after an `e`) never completes a top-level byte string, which
+    # then swallows the requests that follow it on the connection: they get no `done`.
+    rm = [g for q, g in P.funcs.items() if q == "nrepl::read_message" or q.startswith("nrepl::read_message::<")]
+    if not rm:
+        raise M.MissingAnchor("nrepl::read_message")
+    for g in rm:
+        pushes_ = [bi for bi, t in g.calls() if (M.callee_name(t) or "").endswith("Vec::<T, A>::push")]
+        parses_ = [bi for bi, t in g.calls() if "from_bytes" in (M.callee_name(t) or "")]
+        reads_ = [bi for bi, t in g.calls() if (M.callee_name(t) or "").endswith(("::read", "::read_exact"))]
+        res.floor("FRAME-EVERY-BYTE", "decode attempts in read_message", len(parses_), 1)
+        bad_ = False
+        for pb in pushes_:
+            tgt = g.blocks[pb]["term"]["target"]
+            if tgt is None:
+                continue
+            r_ = D.reach_from(g, [tgt], avoid_blocks=parses_)
+            if any(rb in r_ for rb in reads_):
+                bad_ = True
+        if bad_ or not pushes_:
+            res.bad("FRAME-EVERY-BYTE", "nrepl::read_message # conditional decode",
+                    "after a byte is appended to the buffer, read_message can go on to read the next byte without trying to decode the buffer: a value "
+                    "whose last byte does not trigger the attempt is never recognised and absorbs the requests that follow it", g.loc())
+        else:
+            res.ok("FRAME-EVERY-BYTE", "read_message tries to decode after every byte it appends")
     # ---- ID-ECHO: "the last message with that id" needs every response to carry the request's id as it was sent
     # (bencode ids may be integers or byte strings). base_response must copy the raw `id` value of the request.
     br = P.require_fn("nrepl::base_response")
